@@ -9,6 +9,8 @@ UFields == <<"A", "N", "P", "L">>
 KindOf == [f \in {"A", "N", "P", "L"} |-> CASE f = "A" -> "basic" [] f = "N" -> "struct" [] OTHER -> "nillable"]
 UProgs == {[basic |-> b, struct |-> s, nillable |-> n, skip |-> k, srcPtr |-> sp, ignoreA |-> ig, retErr |-> re] :
              b \in BOOLEAN, s \in BOOLEAN, n \in BOOLEAN, k \in BOOLEAN, sp \in BOOLEAN, ig \in BOOLEAN, re \in BOOLEAN}
+\* a fifth target field LS []string fed by `map L LS | ToS` (a custom function changing the slice type): nillable category
+MustLS(p, nonzero) == IF "L" \in nonzero THEN "conv" ELSE IF p.nillable THEN "keep" ELSE "open"
 Valuations == SUBSET {"A", "N", "P", "L"}
 Selected(p, f) == (KindOf[f] = "basic" /\ p.basic) \/ (KindOf[f] = "struct" /\ p.struct) \/ (KindOf[f] = "nillable" /\ p.nillable)
 Must(p, f, nonzero) ==
